@@ -40,6 +40,11 @@ fn scenario_for(base: u64, scen: u64) -> (Scenario, usize, Vec<String>) {
             path: s.clone(),
             bytes: source_content(&s, 1),
         });
+        if rng.chance(1, 3) {
+            // a generated file was removed as well: it is rebuilt from a record
+            // that says "generated" although no file is there
+            sc.history.push(Step::Remove { path: rng.pick(&g.targets).clone() });
+        }
     }
     let build_group = sc.history.len();
     let prog = if rng.chance(1, 2) { "redo" } else { "redo-ifchange" };
@@ -146,7 +151,7 @@ impl Property for C10 {
         }
     }
     fn rule(&self) -> &'static str {
-        "per scenario (2-5 targets incl. checksummed ones and previously generated files, one build \
+        "per scenario (2-5 targets incl. checksummed ones; alternately a first build and a rebuild of generated files after a source edit, sometimes with one generated file removed; one build \
          under a fixed seeded schedule) a fault-free run records the M state-changing libc calls of \
          redo processes (open/create, write to the database and its WAL, rename, unlink, lock, fork, \
          exec, exit); then for every k in 0..M and scope in {that process, whole tree} the same \
@@ -283,7 +288,17 @@ impl Property for C10 {
             if let Some(g) = rec.groups.iter().find(|g| g.step_idx == bg) {
                 // a window on a target that had never been built before the
                 // killed command is tagged `rename-commit-first:`
-                let existed = |t: &str| bg > 0 && rec.fs_after[bg - 1].contains_key(t);
+                // (never built = no file and no generated record before the command)
+                let existed = |t: &str| {
+                    bg > 0
+                        && (rec.fs_after[bg - 1].contains_key(t)
+                            || rec.db_after[..bg]
+                                .iter()
+                                .rev()
+                                .flatten()
+                                .next()
+                                .map_or(false, |db| db.files.get(t).map_or(false, |f| f.0)))
+                };
                 let w: Vec<String> = open_windows(g)
                     .into_iter()
                     .map(|x| match x.strip_prefix("rename-commit:") {
